@@ -633,17 +633,18 @@ pub fn get_value(
                 pos = string_length.saturating_sub(pos.saturating_abs()).saturating_add(1);
             }
 
+            // no length: the rest of the string; a length of 0: nothing
             let len = match &function_args.get(1) {
                 Some(len) => match len.parse::<usize>() {
-                    Ok(len) => len,
+                    Ok(len) => Some(len),
                     _ => return Variant::empty(VariantType::String),
                 },
-                _ => 0,
+                _ => None,
             };
 
-            let result = match len > 0 {
-                true => string.chars().skip(pos as usize).take(len).collect(),
-                false => string.chars().skip(pos as usize).collect(),
+            let result = match len {
+                Some(len) => string.chars().skip(pos as usize).take(len).collect(),
+                None => string.chars().skip(pos as usize).collect(),
             };
 
             Variant::from_string(&result)
